@@ -246,23 +246,60 @@ macro_rules! all_widths {
 /// frees the pointer 0x5555..., which kills the process (reported through the canary run) and is an
 /// error under Miri and valgrind.
 struct Fill;
+/// bytes currently allocated (the leak witness: "the conversions leak nothing")
+static LIVE: std::sync::atomic::AtomicIsize = std::sync::atomic::AtomicIsize::new(0);
 unsafe impl std::alloc::GlobalAlloc for Fill {
     unsafe fn alloc(&self, l: std::alloc::Layout) -> *mut u8 {
         let p = std::alloc::System.alloc(l);
         if !p.is_null() {
             std::ptr::write_bytes(p, 0x55, l.size());
+            LIVE.fetch_add(l.size() as isize, std::sync::atomic::Ordering::Relaxed);
         }
         p
     }
     unsafe fn dealloc(&self, p: *mut u8, l: std::alloc::Layout) {
+        LIVE.fetch_sub(l.size() as isize, std::sync::atomic::Ordering::Relaxed);
         std::alloc::System.dealloc(p, l)
     }
     unsafe fn alloc_zeroed(&self, l: std::alloc::Layout) -> *mut u8 {
-        std::alloc::System.alloc_zeroed(l)
+        let p = std::alloc::System.alloc_zeroed(l);
+        if !p.is_null() {
+            LIVE.fetch_add(l.size() as isize, std::sync::atomic::Ordering::Relaxed);
+        }
+        p
     }
     unsafe fn realloc(&self, p: *mut u8, l: std::alloc::Layout, n: usize) -> *mut u8 {
-        std::alloc::System.realloc(p, l, n)
+        let q = std::alloc::System.realloc(p, l, n);
+        if !q.is_null() {
+            LIVE.fetch_add(n as isize - l.size() as isize, std::sync::atomic::Ordering::Relaxed);
+        }
+        q
     }
+}
+
+/// "leak nothing": the whole conversion enumeration (dims <= 3) is executed repeatedly, all its
+/// results and the bookkeeping of the run are dropped, and the number of live heap bytes must return
+/// to where it was (after one warm-up run that initialises lazily created globals)
+fn leak_check(st: &mut Stats) -> Vec<isize> {
+    let run = || {
+        let before = LIVE.load(std::sync::atomic::Ordering::SeqCst);
+        {
+            let mut tmp = Stats::default();
+            let _ = guarded(|| run_all(&mut tmp, 3, 4));
+        }
+        LIVE.load(std::sync::atomic::Ordering::SeqCst) - before
+    };
+    let _warm = run();
+    let deltas: Vec<isize> = (0..3).map(|_| run()).collect();
+    st.evaluations += 3;
+    if deltas.iter().any(|d| *d != 0) {
+        st.violation(Violation {
+            sig: "memory leak".into(),
+            case: json!({"enumeration": "all conversions, dimensions <= 3, run three times after a warm-up", "live_byte_growth_per_run": deltas}),
+            what: format!("heap bytes still allocated after the conversion enumeration and all its results were dropped: growth per run {deltas:?}"),
+        });
+    }
+    deltas
 }
 #[global_allocator]
 static ALLOC: Fill = Fill;
@@ -406,6 +443,7 @@ fn main() {
         println!("replay: property holds on this case");
         std::process::exit(0);
     }
+    let leak = if std::env::var("C13_CRASH").is_err() { leak_check(&mut stats) } else { vec![] };
     // memory monitors (thorough tier): results handed over by run.sh through the environment
     let miri = std::env::var("C13_MIRI").unwrap_or_else(|_| "not run in this tier".into());
     let valgrind = std::env::var("C13_VALGRIND").unwrap_or_else(|_| "not run in this tier".into());
@@ -420,12 +458,12 @@ fn main() {
         mode: cli.mode,
         seed: cli.seed,
         start,
-        rule: "Dual, DualVec, Dual2, Dual2Vec x (F,F') in {f32,f64}^2 x static dims 0..6 and dynamic lengths 0..6 x every presence pattern x a sweep of the part alphabet {0, 1.5, 1/3, 1e-40 (underflows in f32), 1e40 (overflows), -2.25} x every method: to_superset, from_superset, from_superset_unchecked, is_in_subset (SubsetOf), to_subset, from_subset, is_in_subset (SupersetOf), lifting/extracting f32 and f64, nalgebra::convert / try_convert / convert_unchecked / Matrix::cast on 2x2 static and 2x3 dynamic matrices of dual numbers. Non-trivial: every value (all carry derivative parts or presence patterns).".into(),
+        rule: "Dual, DualVec, Dual2, Dual2Vec x (F,F') in {f32,f64}^2 x static dims 0..6 and dynamic lengths 0..6 x every presence pattern x a sweep of the part alphabet {0, 1.5, 1/3, 1e-40 (underflows in f32), 1e40 (overflows), -2.25} x every method: to_superset, from_superset, from_superset_unchecked, is_in_subset (SubsetOf), to_subset, from_subset, is_in_subset (SupersetOf), lifting/extracting f32 and f64, nalgebra::convert / try_convert / convert_unchecked / Matrix::cast on 2x2 static and 2x3 dynamic matrices of dual numbers; a counting global allocator checks that the live heap bytes return to their level after the enumeration is run again and dropped (no leak). Non-trivial: every value (all carry derivative parts or presence patterns).".into(),
         assumptions: vec![
             "simba contract as the reference model: widening is exact and narrowing back is the identity; from_superset(x).is_some() <=> is_in_subset(x) and the value is the per-part `as` cast; lifting a float gives a constant; extracting gives the real part".into(),
             format!("memory monitors on the reduced enumeration (dims <= 2): miri: {miri}; valgrind: {valgrind}"),
         ],
-        extra: json!({"miri": miri, "valgrind": valgrind}),
+        extra: json!({"miri": miri, "valgrind": valgrind, "live_byte_growth_per_run": leak}),
         exhaustive: true,
         caps: vec![],
     };
